@@ -158,17 +158,21 @@ func (x *exec) doNoise() {
 	}
 }
 
-func (x *exec) relayRecv(p *sim.Pkt, sig int) {
+// relayRecv relays p honestly. A rejected honest relay is not this property's concern (it is counted and the
+// packet simply stays pending); non-vacuity is guarded by the controls.
+func (x *exec) relayRecv(p *sim.Pkt, sig int) bool {
 	w := x.w
 	l := w.Links[p.Link]
 	side := 1 - p.Dir
 	h := w.FreshHeight(l, side, sig)
 	res := w.Deliver(l.Chain[side], sig, w.BuildRecv(p, h, sig))
 	if !res.OK || sim.ResultIsNoop(res) {
-		vx.Harnessf("prefix receive of %s failed: %v", p, res.Err)
+		x.rec.Add("prefix_relay_failed", 1)
+		return false
 	}
 	w.NoteAck(p, res)
 	x.recvd[p.Idx] = true
+	return true
 }
 
 // writeAsync writes the acknowledgement of an asynchronously handled packet, as its application would.
@@ -207,7 +211,7 @@ func (x *exec) ackKnown(p *sim.Pkt) bool {
 	return p.Ack1 != nil
 }
 
-func (x *exec) relayAck(p *sim.Pkt, sig int) {
+func (x *exec) relayAck(p *sim.Pkt, sig int) bool {
 	w := x.w
 	l := w.Links[p.Link]
 	h := w.FreshHeight(l, p.Dir, sig)
@@ -217,9 +221,11 @@ func (x *exec) relayAck(p *sim.Pkt, sig int) {
 	}
 	res := w.Deliver(l.Chain[p.Dir], sig, w.BuildAck(p, p.Ack1, a2, h, sig))
 	if !res.OK || sim.ResultIsNoop(res) {
-		vx.Harnessf("prefix acknowledgement of %s failed: %v", p, res.Err)
+		x.rec.Add("prefix_relay_failed", 1)
+		return false
 	}
 	x.acked[p.Idx] = true
+	return true
 }
 
 func isAsync(sp pspec) bool { return len(sp.Out) == 1 && sp.Out[0] == "async" }
@@ -252,7 +258,9 @@ func (x *exec) prefix() {
 	if c.Prop == "C05" {
 		for j := 0; j < c.Done && j < len(x.main)-2; j++ {
 			p := x.main[j]
-			x.relayRecv(p, j%3)
+			if !x.relayRecv(p, j%3) {
+				break
+			}
 			if isAsync(c.Pk[j]) {
 				x.writeAsync(p, j, c.Pk[j])
 			}
@@ -270,20 +278,21 @@ func (x *exec) prefix() {
 	}
 	for j := 0; j < nrecv; j++ {
 		p := x.main[j]
-		x.relayRecv(p, j%3)
+		if !x.relayRecv(p, j%3) {
+			break // (ordered channels need the receives in order)
+		}
 		if isAsync(c.Pk[j]) {
 			x.writeAsync(p, j, c.Pk[j])
 		}
-		if j < len(x.twin) {
-			x.relayRecv(x.twin[j], (j+1)%3)
-			if isAsync(c.Pk[j]) {
-				x.writeAsync(x.twin[j], j, c.Pk[j])
-			}
+		if j < len(x.twin) && x.relayRecv(x.twin[j], (j+1)%3) && isAsync(c.Pk[j]) {
+			x.writeAsync(x.twin[j], j, c.Pk[j])
 		}
 		x.doNoise()
 	}
 	for j := 0; j < c.Done && j < nrecv-2; j++ {
-		x.relayAck(x.main[j], j%3)
+		if !x.recvd[x.main[j].Idx] || !x.relayAck(x.main[j], j%3) {
+			break
+		}
 	}
 }
 
